@@ -1072,10 +1072,13 @@ def replay(ctx, rep):
         return 1 if crashed or rep.get("failing_input_found") else 0
     if "tuple" in rep and "fn" in rep:
         sw = Sweep(ctx)
-        sw.run([sw.case(rep["fn"], tuples=[rep["tuple"]], limit_ms=20000)], workers=1)
+        t = rep["tuple"]
+        if rep.get("args") and all(a in SRC for a in rep["args"]):
+            t = [SRC.index(a) for a in rep["args"]]         # the pool may have been reordered since the replay was written
+        sw.run([sw.case(rep["fn"], tuples=[t], limit_ms=20000)], workers=1)
         for f in sw.fail:
             f["class"] = classify(f)
-        print(json.dumps({"call": render_call(rep["fn"], rep["tuple"]), "outcomes": sw.counts, "failures": sw.fail}))
+        print(json.dumps({"call": render_call(rep["fn"], t), "outcomes": sw.counts, "failures": sw.fail}))
         return 1 if any(f["class"] == "violation" for f in sw.fail) else 0
     print(json.dumps({"what": "nothing to replay in this file", "keys": sorted(rep)}))
     return 1
